@@ -49,6 +49,16 @@ func ruleG1(c *Ctx, pkgs map[string]bool, floor int) {
 			}
 			lit, ok := ast.Unparen(gs.Call.Fun).(*ast.FuncLit)
 			if !ok {
+				// go f(…) where f is a local bound once to a function literal
+				if id, isId := ast.Unparen(gs.Call.Fun).(*ast.Ident); isId {
+					if v, isVar := info.Uses[id].(*types.Var); isVar {
+						if rhs := singleDef(f, v); rhs != nil {
+							lit, ok = ast.Unparen(rhs).(*ast.FuncLit)
+						}
+					}
+				}
+			}
+			if !ok {
 				return true
 			}
 			// deferred Done at the top of the goroutine
